@@ -21,7 +21,7 @@ r.name = "t"
 ops = {"q": track.Operation("q", "search", {})}
 keys = ["warmup-iterations", "iterations", "warmup-time-period", "time-period", "ramp-up-time-period"]
 n = 0
-for vals in itertools.product((None, 2), (None, 3), (None, 10), (None, 20), (None, 5, 15)):
+for vals in itertools.product((None, 2), (None, 3), (None, 10), (None, 20), (None, 5, 10, 15)):
     for dflt_wi, dflt_ru, cb in itertools.product((None, 1), (None, 5), (None, "q", "any", "other")):
         spec = {"operation": "q"}
         spec.update({k: v for k, v in zip(keys, vals) if v is not None})
